@@ -15,6 +15,7 @@ import BB.Proofs.G4Wave
 import BB.Proofs.G4Prep
 import BB.Proofs.G4Example
 import BB.Proofs.G4Frame
+import BB.Proofs.G4Built
 
 namespace BB.C10
 open BB BP Element
@@ -857,5 +858,60 @@ theorem delayEntry_off (s : Sequence) (en : Entry) : s.delayEntry false en = .ok
 
 /-- non-vacuity: the delay step succeeds on the example's subsequence -/
 example : (G4Ex.exSeq.delayEntry true (.sub G4Ex.exSub)).toOption.isSome = true := by decide +kernel
+
+/-! ### "no channel id twice" is a reachable invariant -/
+
+/-- **`Dict.WF` is an invariant of element construction**: whatever the public element API builds
+    (`Element.Built`: the empty element closed under `addBluePrint`, `addArray`, `addFlags`,
+    `changeArg`, `changeDuration`, `validateDurations`, `_applyDelays`, `copy` — accepted or refused
+    calls alike) lists no channel id twice -/
+theorem built_element_wf (e : Element) (h : Element.Built e) : Dict.WF e.chans := h.wf
+
+/-- ... and so does every element stored in a sequence the public sequence API builds
+    (`Sequence.Built`: the empty sequence closed under `addElement` of built elements,
+    `addSubSequence`, all settings and sequencing setters, `copy` and `+`) -/
+theorem built_sequence_wf (s : Sequence) (h : Sequence.Built s) (p : ℤ) (e : Element)
+    (hg : Dict.get? s.data p = some (.el e)) : Dict.WF e.chans := h.elemsWF.get p e hg
+
+/-- `element_delay_paths_agree` without the well-formedness hypothesis, for built elements -/
+theorem element_delay_paths_agree_built (s : Sequence) (e e' e'' : Element) (chans : List Chan) (delays : List ℚ)
+    (srv : Val) (t : Bool) (hb : Element.Built e) (hperm : chans.Perm e.channels)
+    (h1 : s.delayElement e = .ok e') (hd : chans.mapM s.delayOf = .ok delays)
+    (hsr : e.getSR = .ok srv) (h2 : Sequence.prepDelayElement srv e chans delays = .ok e'') :
+    e'.getArrays t = e''.getArrays t :=
+  element_delay_paths_agree s e e' e'' chans delays srv t hb.wf hperm h1 hd hsr h2
+
+/-- **the output path equals forge, for every sequence the public API builds** (no hypothesis on
+    the channel stores): whenever both succeed, `_prepareForOutputting` — the common front end of
+    `outputForAWGFile` and `outputForSEQXFile` — delivers at every position exactly the per-channel
+    arrays of `forge(apply_delays=True, apply_filters=True)` -/
+theorem output_path_equals_forge_built (s : Sequence) (hs : Sequence.Built s) (F : List (ℕ × ForgedPos))
+    (P : List (Dict Chan ChOutF)) (hF : s.forge true true false = .ok F) (hP : s.prepareForOutputting = .ok P) :
+    P.length = F.length ∧
+    ∀ i (h1 : i < F.length) (h2 : i < P.length), ∃ sq, Dict.get? s.sequencing ((i + 1 : ℕ) : ℤ) = some sq ∧
+      F[i] = (i + 1, { sequencing := sq, isSub := false, content := [(1, P[i], none)] }) :=
+  output_path_equals_forge s F P hF hP (fun p e h => hs.elemsWF.get p e h)
+
+/-! non-vacuity: an element and a sequence built through the public API, with a delay on channel 1 -/
+
+def exBuiltEl : Element :=
+  ((({} : Element).addBluePrint (.int 1) G4Ex.exBP).st.addArray (.str "A") (List.replicate 10 0) (.num 10) []).st
+
+theorem exBuiltEl_built : Element.Built exBuiltEl := .addArray _ _ _ _ _ (.addBluePrint _ _ _ .empty)
+
+def exBuilt0 : Sequence := SeqCore.setSR {} (.num 10)
+def exBuilt1 : Sequence := (Sequence.addElement exBuilt0 1 exBuiltEl).st
+def exBuilt2 : Sequence := (Sequence.addElement exBuilt1 2 exBuiltEl).st
+def exBuilt3 : Sequence := SeqCore.setChannelDelay exBuilt2 (.int 1) (.num (1/5))
+def exBuilt4 : Sequence := SeqCore.setChannelAmplitude exBuilt3 (.int 1) (.num 2)
+def exBuiltSeq : Sequence := SeqCore.setChannelAmplitude exBuilt4 (.str "A") (.num 2)
+
+theorem exBuiltSeq_built : Sequence.Built exBuiltSeq :=
+  .setSpec _ _ _ (.setSpec _ _ _ (.setSpec _ _ _
+    (.addElement _ _ _ (.addElement _ _ _ (.setSpec _ _ _ .empty) exBuiltEl_built) exBuiltEl_built)))
+
+/-- both paths succeed on it (so `output_path_equals_forge_built` applies) -/
+example : (exBuiltSeq.forge true true false).toOption.isSome = true ∧ exBuiltSeq.prepareForOutputting.toOption.isSome = true := by
+  constructor <;> decide +kernel
 
 end BB.C10
